@@ -9,6 +9,7 @@ import FractopoModel.Model.Relationships
 import FractopoModel.Spec.Validators
 import FractopoModel.Spec.Defects
 import FractopoModel.Model.Grid
+import FractopoModel.Model.Cli
 /-!
 # Model driver: runs the hand-written models and specs (never the regenerated
 definitions, so that it builds whatever the state of /repo) behind a line protocol.
@@ -237,6 +238,12 @@ def inarea (a : Args) : Option String := do
   let polys := allPolys areas
   some s!"in={",".intercalate (pts.map fun p => if polys.any (·.onBoundary p) then "1" else if polys.any (·.containsStrict p) then "2" else "0")}"
 
+/-- `tuplerepr items=a;b` (`_` for spaces): the text `astype(str)` writes for a tuple of strings -/
+def tuplerepr (a : Args) : Option String := do
+  let s := (a.get? "items").getD ""
+  let items := if s.isEmpty then [] else (s.splitOn ";").map dec
+  some s!"text={enc (Cli.pyTupleRepr items)}"
+
 /-- `defects traces=`: documented defect strings per trace on a crisp configuration -/
 def defects (a : Args) : Option String := do
   let traces ← (a.get? "traces") >>= parseLines?
@@ -307,6 +314,7 @@ def dispatch (line : String) : String :=
       | "rel" => Cmd.rel a
       | "validate" => Cmd.validate a
       | "defects" => Cmd.defects a
+      | "tuplerepr" => Cmd.tuplerepr a
       | "grid" => Cmd.grid a
       | "inarea" => Cmd.inarea a
       | "intersect" => Cmd.intersect a
